@@ -308,6 +308,124 @@ def explore_shard(args):
     return {"root": root, "stats": stats, "fails": fails, "frontier_left": len(frontier)}
 
 
+# ------------------------------------------------------------------ (c) one live mapper: results and copies are values
+MW = 32
+MREGS = ("r", "s")
+MRANGES = ((0, 32), (0, 8), (8, 16))
+
+
+def m_envs():
+    def memf(a, n):
+        return bytes(((a + i) * 7 + 3) & 0xFF for i in range(n))
+    return [bv.Env({"r": x, "s": y, "p": 0x1000, "t": z}, memf) for (x, y, z) in
+            ((0, 0, 0), (0x11223344, 0xA1B2C3D4, 5), (0xFFFFFFFF, 1, 0x80), (0x80000000, 0x7FFFFFFF, 0xFF))]
+
+
+def m_ops():
+    ops = []
+    for rg in MREGS:
+        for (lo, hi) in MRANGES:
+            for val in ("cst", "other", "inc"):
+                ops.append(("w", rg, lo, hi, val))
+    for size in (8, 32):
+        for off in (0, 1):
+            for val in ("cst", "other"):
+                ops.append(("wm", size, off, val))
+    for rg in MREGS:
+        ops.append(("r", rg))
+    ops += [("rm", 8, 0), ("rm", 32, 0), ("rm", 8, 1), ("copy",), ("mcopy",)]
+    return ops
+
+
+def m_value(E, R, val, size, k):
+    if val == "cst":
+        return E.cst((0x5A6B7C8D * (k + 1)) & ((1 << size) - 1), size)
+    if val == "other":
+        return R["t"][0:size]
+    return (R["t"] + (k + 1))[0:size]
+
+
+def m_snapshot_mapper(m, E, R, envs):
+    """observable content of a mapper: registers and a window of memory"""
+    out = []
+    for rg in MREGS:
+        out.append(bv.fingerprint(m(R[rg]), envs))
+    for off in (0, 1, 2, 3, 4):
+        out.append(bv.fingerprint(m(E.mem(R["p"], 8, disp=off)), envs))
+    return tuple(out)
+
+
+def m_run(hist):
+    """replay hist on a fresh mapper; after every step every previously obtained result (expressions read from the
+    mapper, copies of the mapper, copies of its memory) must still denote what it denoted when it was obtained.
+    returns (failure or None, number of invariant evaluations)"""
+    from amoco.cas import expressions as E
+    from amoco.cas.mapper import mapper
+    R = {n: E.reg(n, MW) for n in ("r", "s", "p", "t")}
+    envs = m_envs()
+    m = mapper()
+    kept = []      # (description, object, kind, fingerprint when obtained)
+    n = 0
+    for k, op in enumerate(hist):
+        try:
+            if op[0] == "w":
+                _, rg, lo, hi, val = op
+                loc = R[rg] if (lo, hi) == (0, MW) else R[rg][lo:hi]
+                m[loc] = m_value(E, R, val, hi - lo, k)
+            elif op[0] == "wm":
+                _, size, off, val = op
+                m[E.mem(R["p"], size, disp=off)] = m_value(E, R, val, size, k)
+            elif op[0] == "r":
+                x = m[R[op[1]]]
+                kept.append(("m[%s] read after step %d" % (op[1], k), x, "exp", bv.fingerprint(x, envs)))
+                y = m(R[op[1]])
+                kept.append(("m(%s) evaluated after step %d" % (op[1], k), y, "exp", bv.fingerprint(y, envs)))
+            elif op[0] == "rm":
+                x = m(E.mem(R["p"], op[1], disp=op[2]))
+                kept.append(("m(M%d(p+%d)) after step %d" % (op[1], op[2], k), x, "exp", bv.fingerprint(x, envs)))
+            elif op[0] == "copy":
+                c = m.use()
+                kept.append(("m.use() after step %d" % k, c, "mapper", m_snapshot_mapper(c, E, R, envs)))
+            elif op[0] == "mcopy":
+                c = mapper()
+                c.setmemory(m.mmap.copy())
+                kept.append(("copy of m.mmap after step %d" % k, c, "mapper", m_snapshot_mapper(c, E, R, envs)))
+        except Exception as ex:
+            return None, n      # raising operations are C01/C17 business
+        for (desc, obj, kind, f0) in kept:
+            n += 1
+            try:
+                f1 = bv.fingerprint(obj, envs) if kind == "exp" else m_snapshot_mapper(obj, E, R, envs)
+            except Exception as ex:
+                f1 = ("broken", type(ex).__name__)
+            if f1 != f0:
+                return (("live-mapper", kind, op[0], "after:" + desc.split(" ")[0].split("(")[0]),
+                        "history %r: the %s changed when step %d %r was applied to the mapper it came from: %r -> %r (now %s)" % (
+                            hist, desc, k, op, f0, f1, str(obj).replace("\n", "; ")[:160])), n
+    return None, n
+
+
+def mapper_shard(args):
+    depth, shard, nshards = args
+    ops = m_ops()
+    fails = []
+    stats = {"histories": 0, "invariants": 0}
+    import itertools
+    for d in range(1, depth + 1):
+        for idx, hist in enumerate(itertools.product(ops, repeat=d)):
+            if idx % nshards != shard:
+                continue
+            # only histories that obtain something before the last step can violate the invariant
+            if not any(o[0] in ("r", "rm", "copy", "mcopy") for o in hist[:-1]):
+                continue
+            stats["histories"] += 1
+            f, n = m_run(list(hist))
+            stats["invariants"] += n
+            if f:
+                fails.append(Failure(f[0], f[1], {"mapper_history": [list(o) for o in hist]}, rank=d).to_json())
+    return {"stats": stats, "fails": fails}
+
+
 def run(tier, seed):
     rep = Report("C13", "model_checking")
     depth = 2 if tier == "quick" else 3
@@ -324,6 +442,16 @@ def run(tier, seed):
         tot["states"] += 0
         for f in r["fails"]:
             rep.add(Failure.from_json(f))
+    mdepth = 3 if tier == "quick" else 4
+    mres = core.pmap(mapper_shard, [(mdepth, k, 32) for k in range(32)])
+    mtot = {"histories": 0, "invariants": 0}
+    for r in mres:
+        for k in mtot:
+            mtot[k] += r["stats"][k]
+        for f in r["fails"]:
+            rep.add(Failure.from_json(f))
+    tot["states"] += mtot["histories"]
+    tot["transitions"] += mtot["invariants"]
     if tot["nondet"]:
         rep.harness_errors.append("replay nondeterminism: %d" % tot["nondet"])
     rep.failures.sort(key=lambda f: (f.rank, json.dumps(f.case)))
@@ -335,7 +463,10 @@ def run(tier, seed):
                 "simplify x3, mapper eval concrete/partial, mapper store+read, memory write+read, composer, tst, vec, "
                 "extensions, merge) applied to pools of shared expression objects (5 roots); state = tuple of member "
                 "fingerprints (size, walker value under 36 valuations); invariant: no pre-existing member's fingerprint "
-                "changes; every produced object, mapper and MemoryMap is pickled and compared",
+                "changes; every produced object, mapper and MemoryMap is pickled and compared; (c) one live mapper: every "
+                "history up to the depth over whole/partial register writes, memory writes at two offsets, reads, m.use() and "
+                "memory copies -- every expression read and every copy taken earlier keeps its denotation after each later step",
+        "live_mapper": dict(mtot, depth=mdepth, operations=len(m_ops())),
         "per_root": per, "depth": depth, "closed_below_bound": all(p["open_states_at_bound"] == 0 for p in per),
         "samples": [{"root": "plain", "pool": ["a", "0x91", "(a+b)", "{a[0:4],0x9}"], "transition": ["bin", ".>>", 1, 0]},
                     {"root": "signed", "transition": ["eval", 2, "concrete"]}],
@@ -347,5 +478,8 @@ def run(tier, seed):
 
 
 def replay(case):
+    if "mapper_history" in case:
+        f, _ = m_run([tuple(o) for o in case["mapper_history"]])
+        return [Failure(f[0], f[1], case)] if f else []
     fl, _, _ = step(case["root"], case["hist"], tuple(case["op"]))
     return [Failure(sig, what, case) for sig, what in fl]
